@@ -1,47 +1,108 @@
 #!/usr/bin/env python3
-"""Confirms a seeded mutant in a scratch worktree (suite passes with it, demo fails with it and
-passes without), then applies it to /repo, runs the given checks, and undoes it.
-usage: seed_eval.py <prop> <mutant dir> <i> <pkgdir for demo> <test -run regex> [checks...]"""
-import subprocess, sys, os, shutil, json, re
-prop, mdir, i, pkgdir, runre = sys.argv[1:6]
-checks = sys.argv[6:] or [prop]
-env = dict(os.environ, GOFLAGS='-mod=mod', GOPROXY='off', GOSUMDB='off')
-diff = f'{mdir}/m{i}.diff'; demo = f'{mdir}/m{i}_demo_test.go'
-wt = f'/tmp/wt/eval_{prop}_{i}'
-def sh(cmd, cwd=None, timeout=1800):
+"""Seeded changes (DESIGN §8).
+
+  seed_eval.py confirm <prop> <i> [srcdir]
+      confirms a sub-agent's change in a scratch worktree of /repo (the unedited suite passes with
+      it, the demonstration fails with it and passes without it) and, only then, stores it as
+      /verif/seeded/<prop>_m<i>/{patch.diff, demo_test.go, meta.json}. srcdir defaults to
+      /tmp/seed/out_<prop> and holds m<i>.diff, m<i>_demo_test.go, m<i>.json.
+
+  seed_eval.py run <id> [checks...]
+      applies /verif/seeded/<id>/patch.diff to /repo, runs the given checks (default: the
+      property's own, quick tier), undoes the change, and records the outcome in meta.json.
+"""
+import subprocess, sys, os, shutil, json
+
+env = dict(os.environ, GOFLAGS='-mod=mod', GOPROXY='off', GOSUMDB='off', SYMGO_NOEVIDENCE='1')
+SEEDED = '/verif/seeded'
+
+
+def sh(cmd, cwd=None, timeout=3600):
     r = subprocess.run(cmd, shell=True, cwd=cwd, env=env, capture_output=True, text=True, timeout=timeout)
     return r.returncode, (r.stdout + r.stderr)
-res = {'property': prop, 'mutant': f'm{i}'}
-sh(f'git -C /repo worktree remove --force {wt}')
-rc, out = sh(f'git -C /repo worktree add -q --detach {wt} HEAD')
-try:
-    demo_dst = os.path.join(wt, pkgdir, f'zz_seed_m{i}_demo_test.go')
-    shutil.copy(demo, demo_dst)
-    rc0, o0 = sh(f'go test -vet=off -count=1 -run "{runre}" ./{pkgdir}', cwd=wt)
-    res['demo_passes_without'] = rc0 == 0
-    os.remove(demo_dst)
-    rc, o = sh(f'git apply {diff}', cwd=wt)
-    res['applies'] = rc == 0
-    rc1, o1 = sh('go build ./... && go test -vet=off -count=1 ./...', cwd=wt)
-    res['suite_passes_with'] = rc1 == 0
-    shutil.copy(demo, demo_dst)
-    rc2, o2 = sh(f'go test -vet=off -count=1 -run "{runre}" ./{pkgdir}', cwd=wt)
-    res['demo_fails_with'] = rc2 != 0
-    res['demo_fail_excerpt'] = '\n'.join([l for l in o2.splitlines() if 'FAIL' in l or 'rror' in l or 'expect' in l or 'got' in l][:6])
-finally:
+
+
+def confirm(prop, i, src=None):
+    src = src or f'/tmp/seed/out_{prop}'
+    diff, demo, meta = f'{src}/m{i}.diff', f'{src}/m{i}_demo_test.go', f'{src}/m{i}.json'
+    m = json.load(open(meta))
+    pkgdir, runre = m.get('pkgdir', 'test'), m.get('run', 'TestSeedDemo')
+    wt = f'/tmp/seed/eval_{prop}_{i}'
+    res = {}
     sh(f'git -C /repo worktree remove --force {wt}')
-res['confirmed'] = all(res.get(k) for k in ['demo_passes_without', 'applies', 'suite_passes_with', 'demo_fails_with'])
-# run the checks against /repo with the mutant applied
-rc, o = sh(f'git -C /repo apply {diff}')
-res['checks'] = {}
-try:
-    if rc == 0:
-        for c in checks:
-            rc, o = sh(f'./check.sh {c} quick', cwd='/verif', timeout=3600)
-            lines = [l for l in o.splitlines() if l.startswith(('VIOLATION', 'INCONCLUSIVE', 'UNCONFIRMED'))]
-            res['checks'][c] = {'exit': rc, 'lines': [l[:300] for l in lines[:6]]}
-finally:
-    sh('git -C /repo checkout -- . && git -C /repo clean -fdq -e zz_nothing', )
+    sh(f'git -C /repo worktree add -q --detach {wt} HEAD')
+    try:
+        demo_dst = os.path.join(wt, pkgdir, f'zz_seed_m{i}_demo_test.go')
+        shutil.copy(demo, demo_dst)
+        rc0, o0 = sh(f'go test -vet=off -count=1 -run "{runre}" ./{pkgdir}', cwd=wt)
+        res['demo_passes_without'] = rc0 == 0 and 'no tests to run' not in o0
+        os.remove(demo_dst)
+        rc, o = sh(f'git apply {diff}', cwd=wt)
+        res['applies'] = rc == 0
+        # touches only non-test sources
+        rc, names = sh('git status --short', cwd=wt)
+        res['touches_no_test_file'] = not any(l.strip().endswith('_test.go') for l in names.splitlines())
+        rc1, o1 = sh('go build ./... && go test -vet=off -count=1 ./...', cwd=wt)
+        res['suite_passes_with'] = rc1 == 0
+        if rc1 != 0:
+            res['suite_excerpt'] = o1[-600:]
+        shutil.copy(demo, demo_dst)
+        rc2, o2 = sh(f'go test -vet=off -count=1 -run "{runre}" ./{pkgdir}', cwd=wt)
+        res['demo_fails_with'] = rc2 != 0
+        res['demo_fail_excerpt'] = '\n'.join(
+            [l for l in o2.splitlines() if 'FAIL' in l or 'rror' in l or 'expect' in l or 'got' in l or 'panic' in l][:8])
+    finally:
+        sh(f'git -C /repo worktree remove --force {wt}')
+    ok = all(res.get(k) for k in ['demo_passes_without', 'applies', 'touches_no_test_file', 'suite_passes_with', 'demo_fails_with'])
+    res['confirmed'] = ok
+    if ok:
+        d = f'{SEEDED}/{prop}_m{i}'
+        os.makedirs(d, exist_ok=True)
+        shutil.copy(diff, f'{d}/patch.diff')
+        shutil.copy(demo, f'{d}/demo_test.go')
+        out = {
+            'id': f'{prop}_m{i}', 'breaks_property': prop,
+            'summary': m.get('summary'), 'needs_to_manifest': m.get('needs'), 'files': m.get('files'),
+            'demo': {'file': 'demo_test.go', 'copy_to': f'{pkgdir}/zz_seed_demo_test.go', 'run': f'go test -vet=off -count=1 -run "{runre}" ./{pkgdir}'},
+            'confirmed_in_scratch_worktree': {
+                'ran': ['go test -run demo on clean HEAD (pass)', 'git apply patch.diff', 'go build ./... && go test -vet=off -count=1 ./... (pass, unedited suite)', 'go test -run demo with the change (fail)'],
+                **res},
+            'origin': 'written by a fresh sub-agent that was given only the property text and its own scratch worktree',
+            'checks': {},
+        }
+        json.dump(out, open(f'{d}/meta.json', 'w'), indent=1, ensure_ascii=False)
+    print(json.dumps(res, indent=1, ensure_ascii=False))
+    return ok
+
+
+def run(sid, checks):
+    d = f'{SEEDED}/{sid}'
+    meta = json.load(open(f'{d}/meta.json'))
+    checks = checks or [meta['breaks_property']]
     rc, o = sh('git -C /repo status --short')
-    res['repo_clean_after'] = o.strip() == ''
-print(json.dumps(res, indent=1))
+    if o.strip():
+        print('refusing: /repo is not clean:\n' + o)
+        sys.exit(3)
+    rc, o = sh(f'git -C /repo apply {d}/patch.diff')
+    if rc != 0:
+        print('patch does not apply:', o)
+        sys.exit(3)
+    try:
+        for c in checks:
+            rc, o = sh(f'./check.sh {c} quick', cwd='/verif', timeout=7200)
+            lines = [l for l in o.splitlines() if l.startswith(('VIOLATION', 'INCONCLUSIVE', 'UNCONFIRMED', 'KNOWN-FINDING'))]
+            meta['checks'][c] = {'tier': 'quick', 'exit': rc, 'detected': rc == 1,
+                                 'lines': [l[:400] for l in lines[:6]], 'summary': o.strip().splitlines()[-1][:300] if o.strip() else ''}
+            print(sid, c, 'exit', rc, *[l[:300] for l in lines[:3]], sep='\n  ')
+    finally:
+        sh('git -C /repo checkout -- . && git -C /repo clean -fdq')
+        rc, o = sh('git -C /repo status --short')
+        meta['repo_clean_after'] = o.strip() == ''
+    json.dump(meta, open(f'{d}/meta.json', 'w'), indent=1, ensure_ascii=False)
+
+
+if __name__ == '__main__':
+    if sys.argv[1] == 'confirm':
+        sys.exit(0 if confirm(*sys.argv[2:5]) else 1)
+    elif sys.argv[1] == 'run':
+        run(sys.argv[2], sys.argv[3:])
